@@ -8,6 +8,10 @@ use multiboot2::*;
 use multiboot2_common::{MaybeDynSized, Tag};
 use multiboot2_header as mh;
 
+// exact-alignment, poisoning allocator (engine/checks/src/lib.rs)
+#[global_allocator]
+static A: ledger::Counting = ledger::Counting;
+
 const PERT: [u8; 10] = [0x00, 0x01, 0x02, 0x04, 0x08, 0x10, 0x20, 0x40, 0x80, 0xFF];
 
 /// Argument tuples for scalar arguments of the given byte widths: a marker
